@@ -2,7 +2,7 @@
    half-assigned multi-output operator, and the hypothetical multi-output random source). *)
 From Coq Require Import List NArith ZArith Bool Arith Lia.
 From PV Require Import Graph.OpFamily Graph.Tape Graph.Lazy Graph.Backward Graph.TapeLemmas Graph.LazyProofs
-  Graph.Example Fault.AllocModel Fault.AllocFail.
+  Graph.HistoryProofs Graph.Theorems Graph.Example Fault.AllocModel Fault.AllocFail Fault.AllocRandom.
 Import ListNotations.
 
 (* ---- the example family of Graph/Example.v; every output costs one allocation ---- *)
@@ -110,6 +110,30 @@ Example alloc_failure_random_single_output_recovers :
   map rn_retry (seq 0 4) = repeat rn_ok 4 /\
   rn_ok = Some ([2; 5]%Z, [[Some [0; 1]%Z]; [Some [2; 3]%Z]; [Some [2; 4]%Z]; [Some [2; 5]%Z]], 4%N).
 Proof. vm_compute. split; reflexivity. Qed.
+
+
+(* the hypotheses of alloc_failure_recoverable_random hold for the graph r1, r2, r1 + r2, (r1 + r2) + r1
+   of the example family (reached without failures: the graph engine's invariant gives rinv), with
+   the THIRD allocation failing - after both random nodes were drawn: Error, both samples stay
+   memoised, the stream stays advanced by 4; the retry adds the two sums *)
+Lemma EF_random_single_output o : f_rand EF o <> None -> f_retn EF o <= 1.
+Proof. destruct o; simpl; intros H; try congruence; auto. Qed.
+Example alloc_failure_recoverable_random_nonvacuous :
+  rinv EF (g_ops rn_g) ex_env /\
+  (exists g_f e_f, forwardA EF plan1 (fail_at 2) rn_g ex_env 0 (3, 0) = (AErr, g_f, e_f, 3) /\
+     sp_vals g_f = [[Some [0; 1]%Z]; [Some [2; 3]%Z]; [None]; [None]] /\ e_pos e_f 0 = 4%N) /\
+  (exists g_ok e_ok, forward EF rn_g ex_env (3, 0) = Some ([2; 5]%Z, g_ok, e_ok) /\ e_pos e_ok 0 = 4%N).
+Proof.
+  split.
+  - apply rinv_of_ginv; [exact EF_random_single_output|].
+    assert (H : FamOK EF) by (split; [exact EF_fw_len|split; [exact EF_sh_len|exact EF_inner_argn]]).
+    pose proof (proj1 (T_reachable_invariant EF EV H ex_env rn_cmds)) as Hw. unfold winv in Hw.
+    assert (E : w_graphs (run_all EF EV {| w_graphs := []; w_env := ex_env |} rn_cmds) = [rn_g]) by (vm_compute; reflexivity).
+    rewrite E in Hw. inversion Hw as [|? ? (Hg & _) _]; subst. exact Hg.
+  - split.
+    + eexists _, _. split; [vm_compute; reflexivity|]. split; vm_compute; reflexivity.
+    + eexists _, _. split; vm_compute; reflexivity.
+Qed.
 
 (* A HYPOTHETICAL random source with TWO outputs, assigned one by one like Split's, refutes exact
    recovery: the failure after output 0 leaves y[0] valid and the stream advanced; the retry for
